@@ -187,7 +187,12 @@ func doMatchIn(expression *grammar.MatchExpression, value reflect.Value) (bool, 
 
 func doMatchIsEmpty(matcher *grammar.MatchExpression, value reflect.Value) (bool, error) {
 	// NOTE: see preconditions in evaluategrammar.MatchExpressionRecurse
-	return value.Len() == 0, nil
+	switch value.Kind() {
+	case reflect.Array, reflect.Chan, reflect.Map, reflect.Slice, reflect.String:
+		return value.Len() == 0, nil
+	default:
+		return false, fmt.Errorf("Cannot perform is empty operations on type %s for selector: %q", value.Kind(), matcher.Selector)
+	}
 }
 
 func getMatchExprValue(expression *grammar.MatchExpression, rvalue reflect.Kind) (interface{}, error) {
